@@ -623,6 +623,30 @@ def c04_family(rng, n):
             exp = {'events': [('P', x, ANY, ANY) for x in ran], 'outcome': 'ok', 'nerr': 0}
             out.append((prog_of([['steps', [st]]], ctx={'sel': sel}), exp,
                         {'family': 'c04-per-iteration', 'mode': mode, 'selected': sel}))
+    # the same with a `description` on the step (pypyr then evaluates run/skip once up front, only to word its
+    # notification): the decision is still taken per iteration. `i` / `whileCounter` are left stale by an
+    # earlier loop step, so the up-front value differs from the per-iteration values.
+    for sel in ([2, 4], [1], [1, 2, 3, 4], [3]):
+        for mode in ('run', 'skip'):
+            for loop in ('foreach', 'while'):
+                name = 'i' if loop == 'foreach' else 'whileCounter'
+                expr = {'py': {'op': 'in', 'a': {'n': name}, 'b': {'n': 'sel'}}}
+                pre = probe('PRE')
+                pre[loop] = [9] if loop == 'foreach' else {'max': 1}
+                st = probe('P')
+                st['description'] = 'described step'
+                st[loop] = items if loop == 'foreach' else {'max': 4}
+                st[mode] = expr
+                stale = 9 if loop == 'foreach' else 1
+                ran = [x for x in items if (x in sel) == (mode == 'run')]
+                if loop == 'foreach':
+                    ev = [('PRE', 9, ANY, ANY)] + [('P', x, ANY, ANY) for x in ran]
+                else:
+                    ev = [('PRE', ANY, 1, ANY)] + [('P', ANY, x, ANY) for x in ran]
+                out.append((prog_of([['steps', [pre, st]]], ctx={'sel': sel}),
+                            {'events': ev, 'outcome': 'ok', 'nerr': 0},
+                            {'family': 'c04-per-iteration-described', 'mode': mode, 'loop': loop, 'selected': sel,
+                             'stale': stale}))
     # the decision changes because the body itself changes the input between iterations
     st = probe('Q', set=D(go=False))
     st['foreach'] = [1, 2, 3]
